@@ -72,6 +72,8 @@ def embedded_instances(draw, **kw):
 
 
 def attach_decoy(case, decoy):
+    if decoy and decoy.get('opts') is None and 'inst' in decoy:
+        decoy['opts'] = case['opts']
     if decoy and 'presolves' in decoy:
         case['presolves'] = decoy['presolves']
     elif decoy:
@@ -88,6 +90,10 @@ def draw_decoy(draw, inst, pct_=12):
     if draw(st.booleans()):
         # variant: no second object, but earlier solve() calls on the object under test
         return {'presolves': draw(st.sampled_from([1, 1, 2]))}
+    if draw(st.booleans()):
+        # the second object works on a sibling instance (same agents and lists, other
+        # capacities / targets / second-side orders) with the same options
+        return {'opts': None, 'solve': True, 'inst': draw(strategies.siblings(inst))}
     return {'opts': draw(strategies.option_sets(inst)), 'solve': solve}
 
 
@@ -121,7 +127,8 @@ def base_labels(c, case):
     L.append('mode=' + case.get('mode', 'eb'))
     L.append('status=' + str(c.short['pulp_status']))
     if case.get('decoy'):
-        L.append('decoy_solver_object' + ('_solved' if case['decoy'].get('solve') else ''))
+        L.append('decoy_solver_object' + ('_sibling_instance' if case['decoy'].get('inst') else
+                                          ('_solved' if case['decoy'].get('solve') else '')))
     if case.get('presolves'):
         L.append('earlier_solves_on_same_object')
     return L
